@@ -65,6 +65,7 @@ type guardTr struct {
 	exits    []string    // conditions of early returns that are not errors
 	skips    []string    // conditions under which a loop iteration is skipped (`continue`)
 	breaks   []string    // conditions under which a loop is left (`break`)
+	flagSets map[string][2][]string // Boolean local -> conditions under which it is assigned false / true
 	loops    []string    // loop conditions
 	cases    []valueCase // Boolean functions: condition -> returned literal, in source order
 	deflt    string      // Boolean functions: the final return
@@ -267,6 +268,38 @@ func conj(path, c string) string {
 	return "(" + path + " && " + c + ")"
 }
 
+// flagAssign: `name = true|false` (or `:=`) of a Boolean local the site declares as a flag
+func (tr *guardTr) flagAssign(lhs []ast.Expr, rhs []ast.Expr, path string, define bool) bool {
+	if len(lhs) != 1 || len(rhs) != 1 || !isBoolLit(rhs[0]) {
+		return false
+	}
+	id, ok := lhs[0].(*ast.Ident)
+	if !ok {
+		return false
+	}
+	if _, declared := tr.site.Map[id.Name]; !declared {
+		return false
+	}
+	if define {
+		return true // the initial value: the lists hold the conditions under which the flag CHANGES
+	}
+	if tr.flagSets == nil {
+		tr.flagSets = map[string][2][]string{}
+	}
+	e := tr.flagSets[id.Name]
+	c := path
+	if c == "" {
+		c = "true"
+	}
+	if rhs[0].(*ast.Ident).Name == "true" {
+		e[1] = append(e[1], c)
+	} else {
+		e[0] = append(e[0], c)
+	}
+	tr.flagSets[id.Name] = e
+	return true
+}
+
 func (tr *guardTr) assign(lhs []ast.Expr, rhs []ast.Expr, define bool) {
 	if define && len(rhs) == 1 && len(lhs) >= 1 && len(tr.site.DefName) > 0 {
 		if call, ok := rhs[0].(*ast.CallExpr); ok {
@@ -349,7 +382,9 @@ func (tr *guardTr) walk(b *ast.BlockStmt, path string, top bool) {
 	for _, st := range b.List {
 		switch s := st.(type) {
 		case *ast.AssignStmt:
-			tr.assign(s.Lhs, s.Rhs, s.Tok == token.DEFINE)
+			if !tr.flagAssign(s.Lhs, s.Rhs, path, s.Tok == token.DEFINE) {
+				tr.assign(s.Lhs, s.Rhs, s.Tok == token.DEFINE)
+			}
 		case *ast.IncDecStmt:
 			if id, ok := s.X.(*ast.Ident); ok {
 				tr.setOpaque(id.Name)
@@ -661,6 +696,18 @@ func genGuardFile(file string, sites []guardSite) {
 		}
 		if len(tr.skips) > 0 {
 			fmt.Fprintf(&sb, "/-- the conditions under which a loop iteration is skipped -/\ndef %s_skips%s : List Bool := %s\n\n", s.Name, params, leanBoolList(tr.skips))
+		}
+		if len(tr.flagSets) > 0 {
+			var names []string
+			for n := range tr.flagSets {
+				names = append(names, n)
+			}
+			sort.Strings(names)
+			for _, n := range names {
+				e := tr.flagSets[n]
+				fmt.Fprintf(&sb, "/-- the conditions under which the flag `%s` is set to true after its initialisation -/\ndef %s_%s_true%s : List Bool := %s\n\n", n, s.Name, n, params, leanBoolList(e[1]))
+				fmt.Fprintf(&sb, "/-- the conditions under which the flag `%s` is set to false -/\ndef %s_%s_false%s : List Bool := %s\n\n", n, s.Name, n, params, leanBoolList(e[0]))
+			}
 		}
 		if len(tr.breaks) > 0 {
 			fmt.Fprintf(&sb, "/-- the conditions under which a loop is left -/\ndef %s_breaks%s : List Bool := %s\n\n", s.Name, params, leanBoolList(tr.breaks))
